@@ -3,6 +3,7 @@ package main
 import (
 	"fmt"
 	"go/types"
+	"strings"
 
 	"golang.org/x/tools/go/ssa"
 )
@@ -218,7 +219,14 @@ func init() {
 		keys := m.writtenKeys(store, prefix, snapLen(m.snaps[id], store))
 		c := m.newCell(types.Typ[types.String], len(keys), "written")
 		for i, k := range keys {
-			s := m.bytesToStr(stripPrefix(k, prefix))
+			rest := stripPrefix(k, prefix)
+			if n := len(rest.segs); suffix != "" && n > 0 && rest.segs[n-1].k == SegLit && strings.HasSuffix(rest.segs[n-1].lit, suffix) {
+				segs := append([]Seg{}, rest.segs...)
+				segs[n-1].lit = strings.TrimSuffix(segs[n-1].lit, suffix)
+				c.elems[i] = m.bytesToStr(&BytesVal{segs: normSegs(segs)})
+				continue
+			}
+			s := m.bytesToStr(rest)
 			if suffix != "" {
 				ln := m.in.Sub(m.in.StrLen(s), m.in.I64(int64(len(suffix))))
 				s = m.in.StrSubstr(s, m.in.I64(0), ln)
@@ -273,6 +281,11 @@ func init() {
 	})
 	reg(symPkg+"CheckInvOnWrite", func(m *Machine, fn *ssa.Function, args []Value) Value {
 		m.w.checkInv = args[0].(*Term).bv
+		return nil
+	})
+	// ExactMul(on): use exact nonlinear multiplication instead of the axiomatised uninterpreted product
+	reg(symPkg+"ExactMul", func(m *Machine, fn *ssa.Function, args []Value) Value {
+		m.in.nlUF = !args[0].(*Term).bv
 		return nil
 	})
 	reg(symPkg+"FixField", func(m *Machine, fn *ssa.Function, args []Value) Value {
